@@ -545,7 +545,6 @@ func aloneValue(s *Spec, t, i int) string {
 	return fmt.Sprintf("status=%d %s", res.Status, trunc(res.Res, 600))
 }
 
-
 // ---- history-independence audit --------------------------------------------
 //
 // The reference pass and the simulated pass share one process, so state the
@@ -655,7 +654,7 @@ func auditHistory(s *Spec, rr *RunResult, nsites int, tmpDir string) ([]Violatio
 				Task: t, OpIndex: i, Method: op.M, Kind: kind,
 				Detail: "the call returns different values in two sequential executions of the same calls on identically built objects (this process: tasks in order; a fresh process: tasks in reverse order): its answer depends on which other calls were made before, so it is not the value it returns when run alone",
 				Got:    trunc(b.R, 600), Want: trunc(a.Res, 600),
-				Alone:  aloneInFreshProcess(s, t, i, nsites, tmpDir),
+				Alone: aloneInFreshProcess(s, t, i, nsites, tmpDir),
 			})
 		}
 	}
